@@ -329,7 +329,7 @@ PROPS = {
         ]},
         n_quick=200, n_thorough=2000,
         gen_timeout=3000,
-        gates=["fmt.json", "fmt.yaml", "fmt.deep", "parse.ok", "parse.err", "compile.ok", "model.applies",
+        gates=["sweep.stack", "sweep.foreach_in_callee", "fmt.json", "fmt.yaml", "fmt.deep", "parse.ok", "parse.err", "compile.ok", "model.applies",
                "compile.err.ENoMain", "compile.err.EBadFunctionName", "compile.err.EBadImport", "compile.err.EInvalidJump",
                "compile.err.EEmptyVariable", "compile.err.ETooManyLocals", "compile.err.ETooManyUpvalues",
                "compile.err.ERecursionLimitReached", "compile.err.EDuplicateModule", "compile.err.ESuperLimitReached",
